@@ -39,9 +39,9 @@ func init() {
 		NumCases: func(tier, variant string) int {
 			if tier == "thorough" {
 				if variant != "default" {
-					return 48
+					return 32
 				}
-				return 480
+				return 240
 			}
 			return 48
 		},
@@ -862,7 +862,7 @@ func run(c *fw.Case) {
 		runSequence(c, seqSeed(), seqOpts{nKeysP: n, nKeysS: n/2 + r.Intn(n), ops: 3 * n, perOpUntil: perOp, mixedWidths: r.Intn(2) == 0, merges: 2, kind: "medium"}, c.Idx == 0)
 	}
 	// large sequences: stage-driven checks
-	if !c.Failed() && !race && (c.Idx%8 == 0 || (thorough && c.Idx%4 == 0)) {
+	if !c.Failed() && !race && c.Idx%8 == 0 {
 		n := 30000
 		if thorough {
 			n = 200000
